@@ -12,14 +12,32 @@ open B B.Drive
 
 def maxTT : Nat := 12
 
+/-- pseudo-random valuations for diagrams too wide for a full truth table (SplitMix-style mixing of
+    the index; the predicate is then checked on `samples` valuations instead of all 2^n) -/
+def sampleVal (n k : Nat) : Nat → Bool := fun j =>
+  let z := (k + 1) * 0x9E3779B97F4A7C15 % 2 ^ 64
+  let z := (z ^^^ (z >>> 29)) * 0xBF58476D1CE4E5B9 % 2 ^ 64
+  let z := (z ^^^ (z >>> 32))
+  j < n && (z >>> (j % 60)) % 2 == 1
+
+def samples : Nat := 4096
+
 /-- pointwise predicate; `none` = holds -/
 def checkTT2 (n : Nat) (res L R : Arr) (c : Bool → Bool → Bool) : Option String :=
-  if n > maxTT then none else
+  if n > maxTT then
+    if (List.range samples).all fun k =>
+        let v := sampleVal n k
+        evalArr res v == c (evalArr L v) (evalArr R v) then none else some "pointwise(sampled)"
+  else
   let tr := ttOf res n; let tl := ttOf L n; let trr := ttOf R n
   if (List.range (2 ^ n)).all fun i => tr[i]! == c tl[i]! trr[i]! then none else some "pointwise"
 
 def checkTT3 (n : Nat) (res A B C : Arr) (c : Bool → Bool → Bool → Bool) : Option String :=
-  if n > maxTT then none else
+  if n > maxTT then
+    if (List.range samples).all fun k =>
+        let v := sampleVal n k
+        evalArr res v == c (evalArr A v) (evalArr B v) (evalArr C v) then none else some "pointwise(sampled)"
+  else
   let tr := ttOf res n; let ta := ttOf A n; let tb := ttOf B n; let tc := ttOf C n
   if (List.range (2 ^ n)).all fun i => tr[i]! == c ta[i]! tb[i]! tc[i]! then none else some "pointwise"
 
@@ -66,7 +84,10 @@ def handle (key : String) (ins obs : List String) : Verdict :=
       let n := numVars L
       let model := showArr (bddNot L)
       let fail := match parseArr? res with
-        | some A => if n > maxTT then none else
+        | some A => if n > maxTT then
+              (if (List.range samples).all fun k => evalArr A (sampleVal n k) == !(evalArr L (sampleVal n k))
+               then none else some "pointwise(sampled)")
+            else
             if (ttOf A n).toList == (ttOf L n).toList.map (!·) then none else some "pointwise"
         | none => some ("outcome:" ++ res)
       { agree := model == res, model, fail, nontrivial := L.size > 2, tags := tagsOf [L] }
